@@ -355,7 +355,14 @@ private:
     if (record_timestamp_ns >= _next_rotation_time)
     {
       _rotate_files(record_timestamp_ns);
-      _next_rotation_time = _calculate_rotation_tp(record_timestamp_ns, _config);
+
+      // advance from the scheduled point, not from the record's timestamp, so that the rotation
+      // points stay on the configured schedule; points that elapsed without any record are skipped
+      do
+      {
+        _next_rotation_time = _calculate_rotation_tp(_next_rotation_time, _config);
+      } while (_next_rotation_time <= record_timestamp_ns);
+
       return true;
     }
 
